@@ -209,7 +209,7 @@ def run(spec):
     return {'nontrivial': nontrivial, 'labels': labels}
 
 
-FAMILIES = [Family('markets', case, run, quick=320, thorough=10000)]
+FAMILIES = [Family('markets', case, run, quick=640, thorough=10000)]
 
 MANIFEST_INFO = {
     'level_text': 'Generated-program exploration: for every market of every generated model the clearing, aggregation and '
